@@ -345,3 +345,19 @@ contract(F, "ForestRuleExtractor._minimize_key", props=["C11"], lenient=True, al
                         modifies=_MK_MODS)},
          modifies=_MK_MODS,
          notes="which rules are kept, and on what evidence; minimality of the final set follows with monotonicity (L3, assumed)")
+
+# ---------------------------------------------------------------- C03: _increase_value keeps the gap up to date
+# whenever a value was increased, the recorded gap starts where the histogram says it starts (the window is re-derived
+# every time its start moved, in either direction)
+contract(F, "TableMethod._increase_value", props=["C03"], lenient=True, aliases=FAL,
+         params={"self": Obj("TableMethod"), "comb_class": Int, "rule_idx": Int},
+         requires=["comb_class >= 0", "self._gap_size >= 1",
+                   "implies(not is_none(" + _TFV.format(k="comb_class") + "), val(" + _TFV.format(k="comb_class") + ") >= 0)"],
+         may_raise=["AssertionError", "IndexError", "ValueError"], asserts="raise",
+         ensures=["implies(called_after('Function.increase_value', 'TableMethod._increase_value'), "
+                  "self._current_gap[0] == last_result('Function.preimage_gap'))"],
+         loops={0: dict(invariant=[], modifies=["all:List(Opt(Int))", "*self._processing_queue"]),
+                1: dict(invariant=[], modifies=["all:List(Opt(Int))"]),
+                2: dict(invariant=[], modifies=["all:List(Opt(Int))", "*self._processing_queue"])},
+         modifies=_TM_STATE + _TM_FUN,
+         notes="the shift-table updates of this function are not stated (index structures are untracked); only the gap")
